@@ -265,6 +265,12 @@ class Area:
         lay["kind"] = self.kind
         lay["hasbin"] = self.has_binary
         lay["size"] = DOC_SIZE.get(self.kind, 0)
+        extent = max([r["off"] + r["width"] // 8 for r in lay["regs"] if r["parent"] == 0] or [0])
+        lay["extent"] = extent
+        if self.kind == "fcb" and extent != lay["size"]:
+            # XSPI flash configuration blocks of the RT7xx are longer than the 512-byte FlexSPI block; no document available here
+            lay["size"] = extent
+            lay["notes"].append(f"size {extent} taken from the register file (no documented size)")
         self.finish_layout(lay)
         return lay
 
@@ -704,7 +710,7 @@ class Tz(Area):
         return TrustZone.from_binary(self.family, data, self.rev)
 
     def wrap(self, settings):
-        return {"family": self.family, "revision": self.rev, self.settings_key: settings}
+        return {"family": self.family, "revision": self.rev, "tzpOutputFile": "tz.bin", self.settings_key: settings}
 
     def config_text(self, obj):
         # the class offers no configuration writer; the parsed customisations are the configuration
@@ -861,24 +867,22 @@ def enumerate_areas():
     return res
 
 
-def decode_binary(lay, data, active):
-    """Executor for exported bytes: the little-endian value at every active top-level leaf / group member, and whether every
-    byte outside the registers holds one constant fill value. `active`: indices of the leaves present in the binary."""
+def decode_binary(lay, data, leaves):
+    """Executor for exported bytes: the little-endian value at the offset of every leaf that lies inside the binary (None for
+    the others - the spec decides whether they had to be there), and whether every byte outside those registers holds one
+    constant fill value."""
     vals = [None] * len(lay["regs"])
     covered = bytearray(len(data))
-    ok = True
-    for i in active:
+    for i in leaves:
         r = lay["regs"][i - 1]
         n = r["width"] // 8
         if r["off"] + n > len(data):
-            ok = False
             continue
         vals[i - 1] = int.from_bytes(data[r["off"]:r["off"] + n], "little")
         for k in range(r["off"], r["off"] + n):
-            covered[k] += 1
+            covered[k] = 1
     gaps = {data[k] for k in range(len(data)) if not covered[k]}
-    overlap = any(c > 1 for c in covered)
-    return vals, ok and len(gaps) <= 1 and not overlap
+    return vals, len(gaps) <= 1
 
 
 def pack_words(words):
